@@ -172,6 +172,9 @@ def run(chk):
     fd = mdisp.defs.get('calculate_displacements')
     if isinstance(fd, ast.FunctionDef):
         disp_check(chk, it, mdisp, fd, d)
+    from .common import inplace_lint
+    inplace_lint(chk, repo, 'R15.5', ['TidalPy/tides/multilayer/stress_strain.py', 'TidalPy/tides/heating.py', 'TidalPy/tides/multilayer/displacements.py'])
+    chk.floor('R15.5', 3)
     chk.floor('R15.1', 18); chk.floor('R15.2', 21); chk.floor('R15.3', 5); chk.floor('R15.4', 1)
     chk.assume('the potential satisfies U_tt + cot(t) U_t + U_pp/sin^2(t) = -l(l+1) U (C14 for the shipped degree-2 potentials); theta in (0, pi)')
 
